@@ -91,6 +91,17 @@ def Val.truthy : Val → Bool
   | .dict kv => !kv.isEmpty
   | _ => true
 
+/-- `isinstance(v, str)` -/
+def Val.isStr : Val → Bool
+  | .str _ => true
+  | _ => false
+
+/-- `v == s` for a Python value and a string -/
+def Val.strEq (v : Val) (s : String) : Bool :=
+  match v with
+  | .str n => n == s
+  | _ => false
+
 /-- Python `str.encode()` (UTF-8). -/
 def utf8Enc (s : String) : Bytes := s.toUTF8.data.toList
 /-- Python `bytes.decode()` (UTF-8, strict). -/
